@@ -25,6 +25,9 @@ PSEUDO_PUSH = {"PUSH [tag]", "PUSH #[$]", "PUSH [$]", "PUSH data", "PUSHLIB", "P
                "PUSHSIZE"}
 
 
+HEX_VALUED_PSEUDO = {"PUSH data", "PUSH [$]", "PUSH #[$]"}
+
+
 class Unsupported(Exception):
     pass
 
@@ -53,7 +56,12 @@ def item_to_coq(disasm, value, it):
             raise Unsupported("PUSH constant out of range: %s" % value)
         return "IPush %d" % v
     if d in PSEUDO_PUSH:
-        return "IPushSym %d" % it.sym_id((d, str(value)))
+        v = str(value)
+        if d in HEX_VALUED_PSEUDO:
+            # the operand is a hexadecimal number (data hash, sub-assembly index): GASOL re-emits it in lower case and
+            # without leading zeros; it is the same real value
+            v = v.lower().lstrip("0") or "0"
+        return "IPushSym %d" % it.sym_id((d, v))
     if d == "POP":
         return "IPop"
     if d.startswith("DUP") and d[3:].isdigit():
